@@ -42,13 +42,20 @@ def run(tier, rep):
     n = 36 if quick else 360
     for i in range(n):
         k = rnd.randint(2, 9)
-        frames = [frame_of(rnd.choice(pool)) for _ in range(k)]
+        # every third stream repeats a few payloads verbatim (base stations do: 1005/1006/1033/1230)
+        sub = rnd.sample(pool, 3) if i % 3 == 0 else pool
+        if i % 3 == 0:
+            k = rnd.randint(5, 12)
+        frames = [frame_of(rnd.choice(sub)) for _ in range(k)]
         dm = [rnd.random() < 0.4 for _ in frames]
         if not any(dm):
             dm[rnd.randrange(k)] = True
         if all(dm):
             dm[rnd.randrange(k)] = False
-        sent = [gen_streams.damage(rnd, f) if d else f for f, d in zip(frames, dm)]
+        if i % 3 == 0:
+            dm[0] = False     # a good copy first, damaged copies of the same payload later
+        where = [rnd.choice([None, "crc", "crc", "payload"]) for _ in frames]
+        sent = [gen_streams.damage(rnd, f, where=w) if d else f for f, d, w in zip(frames, dm, where)]
         data = b"".join(sent)
         quit = i % 3
         handler = (i // 3) % 2 == 0
